@@ -368,6 +368,7 @@ void report(const char* kind, const char* fmt, ...) {
 bool has_violation() { return G.viol.set; }
 const char* violation_kind() { return G.viol.kind; }
 const char* violation_msg() { return G.viol.msg; }
+void main_progress() { G.unmanaged_atomics = 0; }
 void clear_violation() {
   G.viol.storm = 0;
   G.unmanaged_atomics = 0;
